@@ -683,6 +683,8 @@ func execFstrace(c *ctx, line string) string {
 		}
 		// the implementation is expected to obey the discipline: constant
 		return "ok"
+	case "fsf":
+		return execFsf(c, line)
 	case "fso":
 		if len(f) < 2 {
 			return "badinput"
